@@ -31,6 +31,10 @@ def run(ctx):
     bookkeeping(ctx, g)
     min_hyperbolic(ctx, g)
     good_list(ctx, g)
+    ctx.clauses.append("the generator's private orientation / orbit routines look at every operation 0..=dim() (T4)")
+    gb = [b for d, b in sorted(ctx.facts.bodies.items()) if d.startswith(M) and "{closure" not in d]
+    ctx.scan(gb)
+    index_ranges_inclusive(ctx, "T4-index-ranges", gb, g, 1)
     filters(ctx, g)
     ctx.clauses.append("numbered consecutively from 1 (T4)")
     counter_rule(ctx, "T4-consecutive-numbering", M + "DSyms::new", "<generators::dsym_generators::DSyms as std::iter::Iterator>::next", "SimpleDSym::from_partial", g)
